@@ -32,7 +32,7 @@ META = dict(
          'other character unchanged; a script is such a segment sequence exactly when the scan ends outside literals and embeds (so the theorem covers every closed script); same expression <=> same name, table keys = the distinct trimmed expressions, bound names '
          'pairwise distinct, metadata_only <=> every expression starts with % <=> every expression is dispatched to the metadata '
          'querent, level 1 = concat(level 2), level 0 = head(level 1) or None, level 2 = per-subset leaves of level 4, argument > '
-         'pragma > default. Correspondence: all strings of length <= 6 (quick) / <= 7 (thorough) over 9 symbols, random and small '
+         'pragma > default, a leading `#$` line sets the level it states whatever follows. Correspondence: all strings of length <= 6 (quick) / <= 7 (thorough) over 9 symbols, random and small '
          'exhaustive segment assemblies incl. malformed ones, Unicode whitespace / line-break classes, pragma x argument grids and '
          'ScriptRunner runs on decoded test messages at levels 0,1,2,4 by argument and by pragma, compared with the model; the laws '
          'are also evaluated on the implementation alone.',
